@@ -3,3 +3,4 @@ import Zeno.Props.C18
 import Zeno.Props.C12
 import Zeno.Props.C11
 import Zeno.Props.C13
+import Zeno.Props.C17
